@@ -18,7 +18,7 @@ cd "$V"
 for c in $CHECKS; do
   mkdir -p "$W/ev"; cp evidence/$c.json "$W/ev/" 2>/dev/null
   out=$(VERIF_REPO="$W/r" ./check $c --tier quick 2>&1); rc=$?
-  first=$(echo "$out" | grep '^FAIL' | head -1 | cut -c1-160 | tr '"' "'")
+  first=$(echo "$out" | grep '^FAIL' | head -1 | cut -c1-160 | iconv -f utf-8 -t utf-8 -c | tr '"' "'")
   echo "  check $c rc=$rc $first"
   RES="$RES{\"check\": \"$c\", \"tier\": \"quick\", \"exit\": $rc, \"first_failure\": \"$(echo "$first" | sed 's/\\/\\\\/g')\"},"
   cp "$W/ev/$c.json" evidence/ 2>/dev/null
